@@ -52,7 +52,7 @@ var exprPool = []string{
   }`, `(
     a +
     b
-  )`, "<<EOT\nheredoc ${x} line\n  second\nEOT", "<<-EOT\n    indented ${y.z}\n    EOT", "<<EOT\n${x} at line start\n%{ if c }yes%{ endif }\nEOT", "<<-EOT\n  ${a.b}\n  EOT", `x != null ? x : "default"`, `a.b.c.d.e`, `l[length(l) - 1]`, `"${a}${b}"`, `"$${literal}"`, `1 == 1.0`,
+  )`, "<<EOT\nheredoc ${x} line\n  second\nEOT", "<<-EOT\n    indented ${y.z}\n    EOT", "<<EOT\n${x} at line start\n%{ if c }yes%{ endif }\nEOT", "<<-EOT\n  ${a.b}\n  EOT", `x != null ? x : "default"`, `a.b.c.d.e`, `l[length(l) - 1]`, `"${a}${b}"`, `"$${literal}"`, `1 == 1.0`, `a[true]`, `a[null].b`, `[x[false], y]`, `"${m[true]}"`,
 }
 
 func genName(r *rnd) string { return attrNames[r.n(len(attrNames))] }
@@ -294,7 +294,7 @@ func (in InitM) Source() string {
 // ---- values, traversals, raw recipes ----
 
 var strPool = []string{"", "plain", "with \"quotes\"", "back\\slash", "new\nline", "${interp}", "%{directive}", "$${escaped", "ünïcode ✓", "tab\t", "trailing$", "%", "$", "a${b}c%{d}e", "\r\n", "it's", "tag\U000E0001char", "\U0010FFFF", "zero\u200bwidth", "bell\a", "😀"}
-var keyPool = []string{"k", "a b", "for", "1x", "k2", "ü", "with.dot", "null"}
+var keyPool = []string{"k", "a b", "for", "1x", "k2", "ü", "with.dot", "null", "\ufeffbom"}
 
 func genV(r *rnd, d int) *V {
 	switch k := r.n(11); {
@@ -302,6 +302,9 @@ func genV(r *rnd, d int) *V {
 		return &V{K: "str", S: strPool[r.n(len(strPool))]}
 	case k == 3:
 		return &V{K: "num", N: int64(r.n(2000) - 1000)}
+	case k == 4 && r.chance(1, 3):
+		// whole numbers held at float64 precision
+		return &V{K: "f64", S: r.pick("4611686018427387904", "1e23", "9007199254740993", "-1.8446744073709552e19", "1e300")}
 	case k == 4:
 		return &V{K: "numf", S: r.pick("1.5", "-0.25", "1e100", "123456789012345678901234567890", "0.1", "3.14159265358979")}
 	case k == 5:
@@ -449,7 +452,7 @@ func genBodyOp(r *rnd, allowNested bool) OpM {
 		for i := r.n(3); i > 0; i-- {
 			p := genBodyOp(r, false)
 			p.Via, p.Path = "", nil
-			if p.Kind == "append_held_block" || p.Kind == "hold" || p.Kind == "remove_block" {
+			if p.Kind == "append_held_block" || p.Kind == "hold" || p.Kind == "remove_block" || p.Kind == "clear" {
 				continue
 			}
 			op.Pre = append(op.Pre, p)
